@@ -192,6 +192,7 @@ type Exec struct {
 	clockLast  *Int
 	ufDecl     map[string]bool
 	ntpdef     int
+	sliceData  map[*value][]value
 	inExportPoint bool
 	quiet      bool // suppress inconclusive notes (sampling)
 	tpReg      []tpRegEntry
@@ -733,6 +734,7 @@ func (e *Exec) runPath(prefix []int64) {
 	e.inInit = 0
 	e.ufDecl = map[string]bool{}
 	e.ntpdef = 0
+	e.sliceData = nil
 	e.tpReg, e.tpActive = nil, nil
 	e.race = raceState{names: map[*value]string{}}
 	e.expvarAnon = nil
